@@ -5,15 +5,19 @@ import (
 	"errors"
 	"fmt"
 	"runtime"
+	"strconv"
 	"strings"
 	"sync/atomic"
 	"testing"
 	"time"
 
+	"github.com/gofrs/uuid"
+
 	"github.com/ory/keto/internal/check"
 	"github.com/ory/keto/internal/check/checkgroup"
 	"github.com/ory/keto/internal/relationtuple"
 	"github.com/ory/keto/internal/x"
+	"github.com/ory/keto/ketoapi"
 )
 
 func init() {
@@ -172,6 +176,39 @@ func (d *lifeDeps) Traverser() relationtuple.Traverser {
 	return &lifeTraverser{Traverser: d.faultDeps.Traverser(), d: d}
 }
 
+// The read-only mapper of engine cases: the strings "o<i>" and "u<i>" are the object and
+// subject ids of the case (Engine.BatchCheck takes API tuples and maps them itself).
+type engMappingManager struct{ relationtuple.MappingManager }
+
+func (m engMappingManager) MapStringsToUUIDsReadOnly(_ context.Context, ss ...string) ([]uuid.UUID, error) {
+	out := make([]uuid.UUID, len(ss))
+	for i, s := range ss {
+		if len(s) < 2 {
+			return nil, fmt.Errorf("engine case mapper: %q", s)
+		}
+		n, err := strconv.Atoi(s[1:])
+		if err != nil {
+			return nil, fmt.Errorf("engine case mapper: %q", s)
+		}
+		if s[0] == 'o' {
+			out[i] = objUUID(n)
+		} else {
+			out[i] = subUUID(n)
+		}
+	}
+	return out, nil
+}
+
+type engMapDeps struct{ *faultDeps }
+
+func (d engMapDeps) MappingManager() relationtuple.MappingManager {
+	return engMappingManager{d.faultDeps.RegistryDefault.MappingManager()}
+}
+
+func (d *lifeDeps) ReadOnlyMapper() *relationtuple.Mapper {
+	return &relationtuple.Mapper{D: engMapDeps{d.faultDeps}, ReadOnly: true}
+}
+
 // streamEngineLife runs the real engine with the real concurrent checkgroup and
 // cancels the request / fails a storage call at every position; it observes that the
 // check returns, what it returns, how many storage calls it made, and that no
@@ -228,6 +265,98 @@ func streamEngineLife(t *testing.T, o *Out) {
 			o.Count("LEAK")
 		}
 	}
+	// Engine.BatchCheck over several queries against the same stored state (the query of the
+	// case, stored relationships, the query with other subjects, repeats), undisturbed, with the
+	// k-th storage call of the whole batch failing, and cancelled at the k-th storage call:
+	// every entry answers what its own check answers, or carries the error - one line per entry.
+	runBatch := func(c *EngCase, entries []Tup, kind string, cancelAt, failAt int, persistent bool) {
+		id++
+		bid := fmt.Sprintf("%s%d", kind, id)
+		pc := *c
+		o.Pre("engine", bid+"e0", pc.Payload())
+		env.setLimits(c)
+		old := checkgroup.DefaultFactory
+		checkgroup.DefaultFactory = checkgroup.NewConcurrent
+		defer func() { checkgroup.DefaultFactory = old }()
+		base := runtime.NumGoroutine()
+		ctx, cancel := context.WithCancel(context.Background())
+		var calls int64
+		fd := &faultDeps{RegistryDefault: env.reg, calls: &calls, failAt: int64(failAt), persistent: persistent, pageSize: c.PageSize}
+		ld := &lifeDeps{faultDeps: fd, cancelAt: int64(cancelAt), cancel: cancel, delayUS: r.Intn(3) * 50}
+		eng := check.NewEngine(ld)
+		api := make([]*ketoapi.RelationTuple, len(entries))
+		for i, e := range entries {
+			api[i] = e.api()
+		}
+		type outcome struct {
+			rs  []checkgroup.Result
+			err error
+		}
+		done := make(chan outcome, 1)
+		go func() {
+			rs, err := eng.BatchCheck(ctx, api, c.RDepth)
+			done <- outcome{rs, err}
+		}()
+		var out outcome
+		returned := 1
+		select {
+		case out = <-done:
+		case <-time.After(15 * time.Second):
+			returned = 0
+		}
+		cancel()
+		leak := settle(base)
+		for i, e := range entries {
+			res := "hang"
+			switch {
+			case returned == 1 && out.err != nil:
+				res = "batch-failed/" + errKind(out.err)
+			case returned == 1 && i < len(out.rs):
+				res = membStr(out.rs[i].Membership) + "/" + errKind(out.rs[i].Err)
+			case returned == 1:
+				res = "missing"
+			}
+			pc := *c
+			pc.Query = e
+			pc.FaultAt, pc.FaultPersis = 0, false
+			o.Emit("engine", fmt.Sprintf("%se%d", bid, i), pc.Payload(),
+				fmt.Sprintf("kind=%s\tlres=%s\treturned=%d\tleak=%d\tbcalls=%d\tbsize=%d", kind, res, returned, leak, atomic.LoadInt64(&calls), len(entries)),
+				len(entries) >= 2 && atomic.LoadInt64(&calls) >= 2)
+			o.Count("lres:" + kind + ":" + res)
+		}
+		o.Count("kind:" + kind)
+		if leak != 0 {
+			o.Count("LEAK")
+		}
+	}
+	batchEntries := func(c *EngCase) []Tup {
+		known := map[string]bool{}
+		for _, n := range c.NSs {
+			known[n.Name] = true
+		}
+		ok := func(t Tup) bool { return known[t.NS] && (!t.Sub.IsSet || known[t.Sub.NS]) }
+		if !ok(c.Query) {
+			return nil
+		}
+		entries := []Tup{c.Query}
+		for k, n := 0, 1+r.Intn(5); k < n; k++ {
+			e := c.Query
+			switch x := r.Intn(4); {
+			case x == 0 && len(c.Tuples) > 0:
+				e = c.Tuples[r.Intn(len(c.Tuples))] // a stored relationship: allowed directly
+			case x == 1 && len(c.Tuples) > 0:
+				e.Sub = c.Tuples[r.Intn(len(c.Tuples))].Sub // the query for another subject
+			case x == 2 && len(c.Tuples) > 0:
+				t := c.Tuples[r.Intn(len(c.Tuples))]
+				e.NS, e.Obj = t.NS, t.Obj // the query on another object
+			}
+			if ok(e) {
+				entries = append(entries, e)
+			}
+		}
+		r.Shuffle(len(entries), func(i, j int) { entries[i], entries[j] = entries[j], entries[i] })
+		return entries
+	}
 	for _, l := range corpusLines("engine") {
 		parts := strings.SplitN(l, " ", 3)
 		c, err := ParseEngCase(parts[2])
@@ -264,6 +393,13 @@ func streamEngineLife(t *testing.T, o *Out) {
 		for k := 1; k <= max; k++ {
 			run(c, "cancel", k, 0, false, false)
 			run(c, "fault", 0, k, k%2 == 0, false)
+		}
+		if entries := batchEntries(c); len(entries) >= 2 {
+			runBatch(c, entries, "batchplain", 0, 0, false)
+			for k := 1; k <= max+2; k += 1 + r.Intn(2) {
+				runBatch(c, entries, "batchfault", 0, k, r.Intn(3) == 0)
+				runBatch(c, entries, "batchcancel", k, 0, false)
+			}
 		}
 	}
 }
